@@ -10,7 +10,7 @@ import shutil
 import tempfile
 import zlib
 
-from ..core import Tally  # noqa: F401
+from ..core import Tally, vary_buf  # noqa: F401
 from .. import s2c, tlc
 
 ENGINE = "bloomfam"
@@ -140,7 +140,7 @@ def make_hash(table, probe=7, size=None):
     return hf
 
 
-KEYMAP = {"a": "alpha", "b": b"beta-bytes", "c": "g\u00e4mma-\u4e2d", "d": b"\x00\xff\x80delta"}
+KEYMAP = {"a": "alpha", "b": b"b\xc3\xa9ta-bytes", "c": "g\u00e4mma-\u4e2d", "d": b"\x00\xff\x80delta"}
 
 
 def strategy_fn(name):
@@ -283,7 +283,7 @@ class Ctx:
             g = cls(filepath=path, hash_function=hf)
             os.unlink(path)
             return g
-        return cls.frombytes(bytes(f), hash_function=hf)
+        return cls.frombytes(vary_buf(bytes(f), self.opno), hash_function=hf)
 
     def cells(self, f):
         if self.counting:
@@ -384,6 +384,8 @@ class Ctx:
             return
         if raised is not None:
             t.fail("C16" if self.counting else "C01", "C16.returns" if self.counting else "C01.crash", ENGINE, rp(raised=repr(raised)), sig)
+            if t.focus != ("C16" if self.counting else "C01"):
+                raise raised      # a verdict for the property being checked too (<focus>.unexpected_exception, see s2c.safe_edge)
             return
         t.ok("C16", "C16.returns")
         if o[0] in ("uni", "int"):
